@@ -173,4 +173,36 @@ def undelEntry (v pSect nSect : Nat) : Prog RC := do
   else if entry.secType = ST_DIR then undelDir v pSect entry
   else return rc
 
+/-! ## `adfGetDelEnt`: the list of deleted entries an undelete tool starts from -/
+
+/-- what `adfGetDelEnt` keeps of a block: (secType, sector, parent, name) -/
+abbrev GenEnt := Nat × Nat × Nat × Option Bytes
+
+/-- `adfReadGenBlock`: the block's type and its `GenEnt`; `none` when the read fails -/
+def readGenBlock (v n : Nat) : Prog (Option (Nat × GenEnt)) := do
+  let (rc, buf) ← volRead v n
+  if rc ≠ rcOK then return none
+  let b := blkOfBytes buf
+  let st := b.secType
+  if b.w F_type = T_HEADER ∧ (st = ST_FILE ∨ st = ST_DIR ∨ st = ST_LFILE ∨ st = ST_LDIR) then
+    return some (b.w F_type, (st, n, b.w F_parent, some (cstr (b.bytes O_name (min 30 b.nameLen)))))
+  else return some (b.w F_type, (st, n, 0, none))
+
+/-- the scan of `adfGetDelEnt` over volume-relative block numbers: every FREE block that still holds a file header or a
+    directory block is a deleted entry; a failed read ends the call with no list -/
+def getDelScan (v : Nat) : List Nat → List GenEnt → Prog (Option (List GenEnt))
+  | [], acc => return some acc.reverse
+  | i :: is, acc => do
+    if ← isBlockFree v i then
+      match ← readGenBlock v i with
+      | none => return none
+      | some (ty, e) =>
+        if ty = T_HEADER ∧ (e.1 = ST_DIR ∨ e.1 = ST_FILE) then getDelScan v is (e :: acc) else getDelScan v is acc
+    else getDelScan v is acc
+
+/-- `adfGetDelEnt` (block numbers 2 .. lastBlock - firstBlock, relative to the volume) -/
+def getDelEnt (v : Nat) : Prog (Option (List GenEnt)) := do
+  let vc ← getVolCfg v
+  getDelScan v ((List.range (vc.lastBlock - vc.firstBlock + 1)).drop 2) []
+
 end Adf
